@@ -260,7 +260,11 @@ func (r *Run) Do(a Action) (ok bool) {
 	case "event":
 		r.flush()
 		if r.W.MQ.HasSub(a.Subj) {
-			r.Lines = append(r.Lines, "MQEV\t"+a.Abs)
+			if a.Abs != "" {
+				r.Lines = append(r.Lines, "MQEV\t"+a.Abs)
+			} else {
+				r.Lines = append(r.Lines, "MQBADEV\t"+AbsRID(strings.TrimPrefix(a.Subj, "event.")))
+			}
 		}
 		ok = r.W.Event(a.Subj, a.Ev, []byte(a.Text))
 	case "connevent":
@@ -270,13 +274,15 @@ func (r *Run) Do(a Action) (ok bool) {
 			return false
 		}
 		r.flush()
-		if r.W.MQ.HasSub("conn." + cid) {
+		if r.W.MQ.HasSub("conn."+cid) && a.Abs != "bad" {
 			r.Lines = append(r.Lines, "CONNEV\t"+a.C+"\t"+a.Abs)
 		}
 		ok = r.W.Event("conn."+cid, a.Ev, []byte(a.Text))
 	case "sysevent":
 		r.flush()
-		r.Lines = append(r.Lines, "SYSEV\t"+a.Abs)
+		if a.Abs != "bad" {
+			r.Lines = append(r.Lines, "SYSEV\t"+a.Abs)
+		}
 		ok = r.W.Event("system", a.Ev, []byte(strings.ReplaceAll(a.Text, "$CID:"+a.C, r.W.CIDs()[a.C])))
 	case "evict":
 		ok = r.W.Evict(a.Subj)
